@@ -5,7 +5,10 @@ Import ListNotations.
 Open Scope string_scope.
 Open Scope list_scope.
 
-Ltac fa H x Hx := rewrite forallb_forall in H; specialize (H x Hx); cbn [fst snd] in H.
+Lemma forallb_In {A} (f : A -> bool) l x : forallb f l = true -> In x l -> f x = true.
+Proof. intros H Hx. exact (proj1 (forallb_forall f l) H x Hx). Qed.
+
+Ltac fa H x Hx := let H' := fresh in pose proof (forallb_In _ _ x H Hx) as H'; cbv beta in H'; clear H; rename H' into H.
 
 Lemma literal_all_ok : literal_all = true.
 Proof. vm_compute. reflexivity. Qed.
@@ -21,7 +24,10 @@ Lemma reset_forall p k al v n :
   In v (two k) -> In n (notations_coarse p) -> reset_holds p v n = true.
 Proof.
   intros H1 Hl Hs H2 H3. pose proof reset_all_ok as H. unfold reset_all in H.
-  fa H (p, k, al) H1. rewrite Hl, Hs in H. cbn [negb orb] in H. fa H v H2. fa H n H3. exact H.
+  fa H (p, k, al) H1. apply orb_prop in H. destruct H as [Hc|H]; [apply orb_prop in Hc; destruct Hc as [Hc|Hc]|].
+  - assert (X : negb (in_literal p) = true) by exact Hc. rewrite Hl in X. discriminate X.
+  - assert (X : shadowed defaults_schema p = true) by exact Hc. rewrite Hs in X. discriminate X.
+  - fa H v H2. fa H n H3. exact H.
 Qed.
 
 Lemma reset_none_outside_ok : reset_none_outside = true.
@@ -31,18 +37,27 @@ Lemma reset_outside_forall p k al v :
   In (p, k, al) (sleaves defaults_schema) -> in_literal p = false -> In v (two k) -> reset_holds p v NAttr = false.
 Proof.
   intros H1 Hl H2. pose proof reset_none_outside_ok as H. unfold reset_none_outside in H.
-  fa H (p, k, al) H1. rewrite Hl in H. rewrite orb_false_l in H. fa H v H2.
-  destruct (reset_holds p v NAttr); [discriminate|reflexivity].
+  fa H (p, k, al) H1. apply orb_prop in H. destruct H as [Hc|H].
+  - assert (X : in_literal p = true) by exact Hc. rewrite Hl in X. discriminate X.
+  - fa H v H2. assert (X : negb (reset_holds p v NAttr) = true) by exact H.
+    destruct (reset_holds p v NAttr); [discriminate X|reflexivity].
 Qed.
 
+Definition p_label : path := ["display"; "style"; "base"; "label"].
+Definition p_msize : path := ["display"; "style"; "magnet"; "magnetization"; "arrow"; "size"].
+
 Lemma reset_outside_witness :
-  In (["display"; "style"; "base"; "label"], KToStr, false) (sleaves defaults_schema) /\
-  in_literal ["display"; "style"; "base"; "label"] = false /\
-  reset_holds ["display"; "style"; "base"; "label"] (VStr "lbl") NAttr = false.
-Proof. repeat split; vm_compute; tauto. Qed.
+  In (p_label, KToStr, false) (sleaves defaults_schema) /\ in_literal p_label = false /\
+  reset_holds p_label (VStr "lbl") NAttr = false.
+Proof.
+  split; [|split; vm_compute; reflexivity].
+  apply (nth_error_In _ (leaf_index defaults_schema p_label)). vm_compute. reflexivity.
+Qed.
 
 Lemma reset_alias_witness :
-  In (["display"; "style"; "magnet"; "magnetization"; "arrow"; "size"], KNumGe0, false) (sleaves defaults_schema) /\
-  in_literal ["display"; "style"; "magnet"; "magnetization"; "arrow"; "size"] = true /\
-  reset_holds ["display"; "style"; "magnet"; "magnetization"; "arrow"; "size"] (VInt 2) NAttr = false.
-Proof. repeat split; vm_compute; tauto. Qed.
+  In (p_msize, KNumGe0, false) (sleaves defaults_schema) /\ in_literal p_msize = true /\
+  In (VInt 2) (two KNumGe0) /\ reset_holds p_msize (VInt 2) NAttr = false.
+Proof.
+  split; [|split; [vm_compute; reflexivity|split; [left; reflexivity|vm_compute; reflexivity]]].
+  apply (nth_error_In _ (leaf_index defaults_schema p_msize)). vm_compute. reflexivity.
+Qed.
